@@ -185,6 +185,10 @@ type DialSpec struct {
 	Caller      []KV      `json:"caller_header,omitempty"`
 	Reply       ReplySpec `json:"reply"`
 	Note        string    `json:"note,omitempty"`
+	// ViaNewClient: the handshake goes through the deprecated NewClient(netConn, u, header, 0, 0) with
+	// u = url.Parse(URL) (documented as Dialer.Dial on u.String() over the given connection); only when
+	// the URL parses and neither subprotocols nor compression are requested (NewClient has no such options)
+	ViaNewClient bool `json:"via_new_client,omitempty"`
 }
 
 func buildReply(rs *ReplySpec, key string) ([]byte, http.Header) {
@@ -295,9 +299,20 @@ func dialExec(s core.Spec) core.Exec {
 	for _, kv := range sorted {
 		caller[string(kv.K)] = append(caller[string(kv.K)], strs(kv.V)...)
 	}
-	c, resp, err := d.Dial(sp.URL, caller)
+	var c *websocket.Conn
+	var resp *http.Response
+	var err error
+	theURL := sp.URL
+	if u0, e0 := url.Parse(sp.URL); sp.ViaNewClient && e0 == nil && len(sp.Subprotos) == 0 && !sp.Compression {
+		theURL = u0.String()
+		nc, _ := d.NetDial("tcp", u0.Host)
+		dialed = 0
+		c, resp, err = websocket.NewClient(nc, u0, caller, 0, 0)
+	} else {
+		c, resp, err = d.Dial(sp.URL, caller)
+	}
 
-	pu, perr := url.Parse(sp.URL)
+	pu, perr := url.Parse(theURL)
 	t := core.NewTape(sp.Prop)
 	if perr != nil {
 		// url.Parse itself refuses: outside the model (oracle failure); encode as "other scheme"
@@ -335,6 +350,9 @@ func dialExec(s core.Spec) core.Exec {
 	}
 
 	tags := []string{}
+	if theURL != sp.URL || (sp.ViaNewClient && theURL == sp.URL && len(sp.Subprotos) == 0 && !sp.Compression && perr == nil) {
+		tags = append(tags, "via:NewClient")
+	}
 	switch {
 	case err == nil && c != nil:
 		cw, cr := c.VerifCompressionNegotiated()
@@ -482,6 +500,10 @@ func c14Gen(rng *rand.Rand, tier string) []core.Spec {
 				sp.Caller = append(sp.Caller, KV{K: B(name), V: []B{B(core.Pick(rng, []string{"v1", "other.example", "AAAAAAAAAAAAAAAAAAAAAA==", "h2c", "chat"}))}})
 			}
 		}
+		// one case in five goes through the deprecated NewClient (which has neither option)
+		if rng.Intn(5) == 0 {
+			sp.ViaNewClient, sp.Compression, sp.Subprotos = true, false, nil
+		}
 		out = append(out, sp)
 	}
 	return out
@@ -579,6 +601,7 @@ var dialClauses = map[int]string{
 	121: "a reply that proves acceptance (well-formed token lists) was refused with ErrBadHandshake",
 	122: "more than 1024 body bytes kept with ErrBadHandshake",
 	123: "the URL / header was refused, yet a request was sent",
+	119: "a URL that is not ws/wss or that carries userinfo was not refused as malformed",
 	124: "the request target is not the URL's path and query",
 	125: "Upgrade / Connection / Sec-WebSocket-Version of the request are not the library's values exactly once",
 	126: "the request does not carry exactly one fresh 16-byte Sec-WebSocket-Key",
